@@ -77,8 +77,31 @@ Theorem C15_format_padded_tokens : forall indent text lp mw, tokens (format_padd
 Proof. exact tokens_format_padded. Qed.
 Print Assumptions C15_format_padded_tokens.
 
-(* --- width.  `pre` is the current line of the stream (tellp() = |pre|).  When it is not wider than the left column
-   every line of the result keeps to max_width or contains an unbreakable word (|w| + 1 > max_width - left_pad) *)
+(* --- width, strict form ("no line exceeds max_width unless a single unbreakable word forces it").
+   `pre` is the current line of the stream (tellp() = |pre|).  wide_line base L l says: l is a beginning b with
+   `base b`, followed by nothing but words of L, each behind one blank.  L = long_words_of lp mw text are the
+   unbreakable words (|w| + 1 > max_width - left_pad).  So a line that exceeds max_width ends with an unbreakable
+   word, and what remains without that word and its blank again does, down to a beginning that keeps to max_width.
+   (format_padded never breaks in front of an unbreakable word, so several of them in a row share a line — see
+   Examples.C15_ex_two_unbreakable_words; after the last of them the next breakable word starts a new line.) *)
+Theorem C15_width_strict : forall pre text lp mw,
+  no_nl pre = true -> no_nl text = true -> length pre <= lp -> lp < mw ->
+  Forall (wide_line (fits mw) (long_words_of lp mw text))
+         (lines (pre ++ format_padded (Z.of_nat (length pre)) text lp mw)).
+Proof. exact format_padded_width_narrow_strict. Qed.
+Print Assumptions C15_width_strict.
+
+(* when the existing column is wider than left_pad, the first line is exactly that column followed by nothing but
+   unbreakable words (none if the first word can be broken off); all further lines obey the rule *)
+Theorem C15_width_wide_left_column : forall pre text lp mw,
+  no_nl pre = true -> no_nl text = true -> lp < length pre -> lp < mw ->
+  exists first rest, lines (pre ++ format_padded (Z.of_nat (length pre)) text lp mw) = first :: rest /\
+    wide_line (fun b => seq_eqb b pre) (long_words_of lp mw text) first /\
+    Forall (wide_line (fits mw) (long_words_of lp mw text)) rest.
+Proof. exact format_padded_width_wide_strict. Qed.
+Print Assumptions C15_width_wide_left_column.
+
+(* the weak form of the design text follows: every line keeps to max_width or contains an unbreakable word *)
 Theorem C15_width : forall pre text lp mw,
   no_nl pre = true -> no_nl text = true -> length pre <= lp -> lp < mw ->
   Forall (fun l => line_ok mw (long_words_of lp mw text) l = true)
@@ -86,19 +109,22 @@ Theorem C15_width : forall pre text lp mw,
 Proof. exact format_padded_width_narrow. Qed.
 Print Assumptions C15_width.
 
-(* when the existing column is wider than left_pad, the first line is that column alone unless an unbreakable
-   word follows; all further lines obey the rule *)
-Theorem C15_width_wide_left_column : forall pre text lp mw,
-  no_nl pre = true -> no_nl text = true -> lp < length pre -> lp < mw ->
-  exists first rest, lines (pre ++ format_padded (Z.of_nat (length pre)) text lp mw) = first :: rest /\
-    (first = pre \/ has_long (long_words_of lp mw text) first = true) /\
-    Forall (fun l => line_ok mw (long_words_of lp mw text) l = true) rest.
-Proof. exact format_padded_width_wide. Qed.
-Print Assumptions C15_width_wide_left_column.
+(* the strict rule is exactly what its executable form (judge a line by its LAST word and by the line without it) accepts *)
+Theorem C15_strict_rule_executable : forall base L l, wide_line base L l -> strip_ok (length l) base L l = true.
+Proof. exact (fun base L l H => wide_line_strip base L l H (length l) (le_n _)). Qed.
+Print Assumptions C15_strict_rule_executable.
 
 (* --- width of the whole usage text, with the hypothesis of known finding K2: if the lines that are written as the
    developer supplied them (about text, group descriptions, "name:" lines, spelling columns) keep to 80 columns,
-   every line does, unless it contains an unbreakable word.  The second theorem: without the hypothesis it fails. *)
+   every line is a beginning of at most 80 columns followed by nothing but unbreakable words.  Then the weak form,
+   and: without the hypothesis it fails. *)
+Theorem C15_usage_width_strict : forall d lt,
+  one_line_inputs d lt = true -> length (d_app d) < 72 ->
+  (forall l, In l (dev_lines d) -> length l <= 80) ->
+  Forall (wide_line (fits 80) (usage_long_words d lt)) (lines (usage d lt)).
+Proof. exact usage_width_strict. Qed.
+Print Assumptions C15_usage_width_strict.
+
 Theorem C15_usage_width : forall d lt,
   one_line_inputs d lt = true -> length (d_app d) < 72 ->
   (forall l, In l (dev_lines d) -> length l <= 80) ->
@@ -158,6 +184,18 @@ Proof. vm_compute. reflexivity. Qed.
 Example C15_ex_wrap :
   format_padded 2 (B "aa bbb ccccccccc d  e") 4 12 = B "  aa bbb ccccccccc" ++ [nl] ++ B "    d  e".
 Proof. vm_compute. reflexivity. Qed.
+
+(* an unbreakable word is followed by a line break as soon as a breakable word comes; two unbreakable words in a row
+   share the line (behind column 4 at width 12 a word of 8 or more bytes is unbreakable) *)
+Example C15_ex_two_unbreakable_words :
+  format_padded 0 (B "a bbbbbbbb cccccccc d e") 4 12 = B "    a bbbbbbbb cccccccc" ++ [nl] ++ B "    d e".
+Proof. vm_compute. reflexivity. Qed.
+
+(* the strict rule rejects what the weak rule lets pass: short words behind an unbreakable one *)
+Example C15_ex_strict_rejects :
+  line_ok 12 [B "bbbbbbbb"] (B "    a bbbbbbbb d e") = true /\ line_strict 12 [B "bbbbbbbb"] (B "    a bbbbbbbb d e") = false
+  /\ line_strict 12 [B "bbbbbbbb"] (B "    a bbbbbbbb") = true.
+Proof. repeat split; vm_compute; reflexivity. Qed.
 
 (* a non-seekable stream (position -1) gets one more blank: the reason for building the head line privately *)
 Example C15_ex_nonseekable : format_padded (-1) (B "x") 4 12 = B "     x" /\ format_padded 0 (B "x") 4 12 = B "    x".
